@@ -108,6 +108,10 @@ def tree_case(rep, drv, rng, th, fixed=None):
 			extIn[l] = rng_in.choice([1, 2, 4])
 			rep.count('tree:external-inbound-cst-at-non-source-stage')
 	extOut = {l: (rng.choice([0, 0, 1, 3]) if l in sinks else None) for l in labels}
+	# a demand-bound constant of exactly 0 (a stage that holds no safety stock whatever its net lead time) is a value, not "missing"
+	for l in labels:
+		if rng_in.random() < .12:
+			z[l] = 0; rep.count('tree:demand-bound-constant-0')
 	# ... and an inner stage that also sells to the outside (own demand) may have promised those customers a service time of its own
 	for l in labels:
 		if l not in sinks and own[l] and rng_in.random() < .6:
